@@ -74,6 +74,10 @@ def run(ctx):
     ctx.rule("R11.6", "ARGS-BEFORE: wherever a list of values is scanned (top level and inside `[...]`), the look-behind count handed to rtosc_scan_arg_val is the number of argument values written so far (a variable advanced by next_arg_offset), not a token counter")
     ctx.rule("R11.7", "LOOKBEHIND-TIGHT: a look-behind access arg[-k] is guarded by exactly `at least k values before` (args_before > k-1): weaker reads before the list, stronger ignores a neighbour the checker takes into account")
     ctx.rule("R11.3", "COMMENTS: the four entry loops skip white space and comments introduced by '%' up to the end of the line")
+    ctx.rule("R11.8", "DATE-EXTENT: over probe texts (a date with every optional part, the exact fraction in the printer's own spelling and in the 0x...p-32 spelling, alone or followed by another value) the scanner's time-tag branch consumes exactly what the checker's accepts and reads no local it has not assigned")
+    from ..rules import datescan as DS
+    n_date = DS.obligations(ctx, u, "R11.8")
+    ctx.require(n_date >= 60, "R11.8: only %d date probes evaluated" % n_date)
     chk = u.function("rtosc_skip_next_printed_arg")
     scn = u.function("rtosc_scan_arg_val")
     swc, sws = R.top_switch(u, chk), R.top_switch(u, scn)
